@@ -49,17 +49,26 @@ pub fn run(tier: Tier, seed: u64) -> i32 {
             cases.push((*k, off));
         }
     }
+    // the minimal domains: a gate-free circuit (the 4 rows every composer
+    // starts with, domain n = 4) and a single user row, at three capacities
+    // each (k = 2, offsets 0 and 1; three entries so that ci % 3 visits every
+    // capacity class)
+    let tiny_from = cases.len();
+    for _ in 0..3 {
+        cases.push((2, 0));
+        cases.push((2, 1));
+    }
     par_cases(cases.len() as u64, threads(), |ci| {
         let (k, off) = cases[ci as usize];
         let rows_i = (1i64 << k) + off as i64;
-        if rows_i < 6 {
+        if rows_i < 6 && (ci as usize) < tiny_from {
             return;
         }
         let rows = rows_i as usize;
         let mut rng = case_rng(seed, "C01", ci);
         let mut cfg = GenCfg::all();
         cfg.heavy = rows >= 500 && ci % 2 == 0;
-        let variant = (ci + (seed % 5)) % 5;
+        let variant = if rows < 6 { 0 } else { (ci + (seed % 6)) % 6 };
         // --- program with the requested PI placement -------------------------
         let b = match variant {
             1 => {
@@ -82,6 +91,15 @@ pub fn run(tier: Tier, seed: u64) -> i32 {
                     let kconst = b.val(r) - piv;
                     b.push(Op::AssertEqConst(r, kconst, Pi::Input(i))).unwrap();
                 }
+                b
+            }
+            5 if rows >= 10 && rows <= 1100 => {
+                // wire polynomials of degree < n - levels (their top
+                // coefficients vanish), which random witnesses never give
+                let levels = 1 + (ci as usize / 6) % 2;
+                let b = build::random_program(&mut rng, &cfg, rows - levels);
+                let b = build::low_degree_columns(b, levels);
+                ev.bucket("low_degree_wire_columns");
                 b
             }
             _ => build::random_program(&mut rng, &cfg, rows),
@@ -179,9 +197,16 @@ pub fn run(tier: Tier, seed: u64) -> i32 {
         let verifiers: [(&str, &Verifier); 3] = [("direct", &a.verifier), ("compressed", &bpair.1), ("bytes", &cpair.1)];
         let want_pi: Vec<BlsScalar> = inst.public_inputs.iter().map(|(_, v)| *v).collect();
         let mut reached = false;
-        for (pn, prover) in provers {
+        for (pi_idx, (pn, prover)) in provers.into_iter().enumerate() {
             let mut prng = case_rng(seed ^ 0xabc, "C01.prove", ci * 8 + pn.len() as u64);
-            let proved = common::prove(prover, &prog, &inputs, &[], &mut prng, PlonkVersion::V3);
+            // each route proves on a rayon pool of another size (the prover's
+            // chunking depends on the number of worker threads)
+            let pool = crate::util::POOL_SIZES[(ci as usize * 3 + pi_idx + seed as usize) % crate::util::POOL_SIZES.len()];
+            ev.set_insert("prover_pools", pool);
+            if rows.is_power_of_two() && !pool.is_power_of_two() {
+                ev.bucket("full_domain_on_pool_not_dividing_it");
+            }
+            let proved = crate::util::in_pool(pool, ci, || common::prove(prover, &prog, &inputs, &[], &mut prng, PlonkVersion::V3));
             match proved.result {
                 Ok((proof, pi)) => {
                     if pi != want_pi {
@@ -207,6 +232,12 @@ pub fn run(tier: Tier, seed: u64) -> i32 {
             }
         }
         ev.case(&desc, reached && rows > 4);
+        if rows < 6 {
+            // tiny domains are counted apart so that they do not feed the
+            // offset floors
+            ev.bucket(&format!("tiny_domain.rows{rows}"));
+            return;
+        }
         ev.set_insert("offsets", off);
         ev.set_insert(&format!("k@offset{off}"), k);
         ev.set_insert("k", k);
@@ -231,5 +262,10 @@ pub fn run(tier: Tier, seed: u64) -> i32 {
     ev.floor("verifications", ev.bucket_get("verified"), tier.pick(600, 1200));
     ev.floor("PI on last row of a full domain", ev.bucket_get("pi_on_last_row_of_full_domain"), 1);
     ev.floor("capacities", ev.set_len("capacities") as u64, 3);
+    ev.floor("rayon pool sizes used for proving", ev.set_len("prover_pools") as u64, 12);
+    ev.floor("full domains proved on a pool size that does not divide them", ev.bucket_get("full_domain_on_pool_not_dividing_it"), 6);
+    ev.floor("circuits whose wire polynomials have vanishing top coefficients", ev.bucket_get("low_degree_wire_columns"), 8);
+    ev.floor("gate-free circuits (domain of 4 rows)", ev.bucket_get("tiny_domain.rows4"), 3);
+    ev.floor("single-row circuits", ev.bucket_get("tiny_domain.rows5"), 3);
     ev.finish()
 }
